@@ -189,15 +189,16 @@ theorem flush_specOK {s : EMT} {first L iF u v : Int} {acc : List Spec}
         · exact ⟨specOK_of_bounds hb h0 h0', by unfold FrameFull; rw [hb.1]; exact ⟨h0, h0'⟩⟩
   · exact hacc
 
-/-- invariant of an edge-multi channel between blocks (after trimming): either fresh, or running with
-the next call guaranteed not to reset and the pending edge OK w.r.t. the retained buffer -/
+/-- invariant of an edge-multi channel between blocks (after trimming): either freshly (re)configured
+(`next = 0`: the next call resets the search, whatever the buffer holds), or running with the next call
+guaranteed not to reset and the pending edge OK w.r.t. the retained buffer -/
 structure EmtSafe (c : Chan) : Prop where
   npre3 : 3 ≤ c.emt.npre
   lt : c.emt.npre < c.emt.nsamp
   zt4 : c.emt.enableZT = true → 4 ≤ c.emt.npre ∧ 4 ≤ c.emt.nsamp - c.emt.npre
   emtOn : c.ts.edgeMulti = true
   first0 : 0 ≤ c.first ∨ c.buf = []
-  state : (c.buf = [] ∧ c.emt.next = 0) ∨
+  state : c.emt.next = 0 ∨
     (0 ≤ c.first ∧ c.emt.npre ≤ c.emt.next - c.first ∧ (c.emt.enableZT = true → c.emt.npre + 1 ≤ c.emt.next - c.first) ∧
       PendOK c.emt c.first c.buf.length (c.emt.next - c.first) c.emt.u c.emt.v)
 
@@ -231,7 +232,7 @@ frame ≥ 0), then `TriggerData` on the appended buffer returns — no search re
 the buffer — and the trimmed channel satisfies `EmtSafe` again. -/
 theorem emtSafe_step (c : Chan) (zt : ZT) (hzt : ∀ p, -1 ≤ zt p ∧ zt p ≤ 1) (hs : EmtSafe c)
     (seg : List Nat) (segFirst t0 per : Int) (sg : Bool)
-    (hcont : (c.emt.next = 0 ∧ 0 ≤ segFirst) ∨ (c.emt.next ≠ 0 ∧ segFirst = c.first + c.buf.length)) :
+    (hcont : (c.emt.next = 0 ∧ 0 ≤ segFirst - c.buf.length) ∨ (c.emt.next ≠ 0 ∧ segFirst = c.first + c.buf.length)) :
     ∃ c' recs, triggerData (append c seg segFirst t0 per sg) zt = some (c', recs) ∧ EmtSafe (trim c') ∧
       (trim c').emt.next ≠ 0 ∧ (trim c').first + (trim c').buf.length = segFirst + seg.length ∧
       (∀ r ∈ recs, (segFirst - c.buf.length) + c.emt.npre ≤ r.frame ∧
@@ -251,23 +252,23 @@ theorem emtSafe_step (c : Chan) (zt : ZT) (hzt : ∀ p, -1 ≤ zt p ∧ zt p ≤
       PendOK c.emt ca.first ca.buf.length r.1 r.2.2.1 r.2.2.2.1 ∧
       (∀ sp ∈ r.2.2.2.2, SpecOK ca.first ca.buf.length sp ∧ FrameFull c.emt ca.first ca.buf.length sp) := by
     rw [ca_emt]
-    rcases hstate with ⟨hb, hn0⟩ | ⟨hf0, hnr, hnrz, hpend⟩
-    · -- fresh: the reset branch
-      have hfirst : ca.first = segFirst := by rw [ca_first, hb]; simp
-      have hsf : 0 ≤ segFirst := by
+    rcases hstate with hn0 | ⟨hf0, hnr, hnrz, hpend⟩
+    · -- (re)configured: the reset branch
+      have hsf : 0 ≤ ca.first := by
+        rw [ca_first]
         rcases hcont with ⟨_, h⟩ | ⟨h, _⟩
         · exact h
         · exact absurd hn0 h
-      rw [emtSpecs_reset _ _ _ _ (by rw [hn0, hfirst]; omega)]
+      rw [emtSpecs_reset _ _ _ _ (by rw [hn0]; omega)]
       have hcfg1 : SameCfg c.emt { c.emt.reset with sentinel := true } := ⟨rfl, rfl, rfl, rfl, rfl, rfl⟩
       rw [emtLoop_congr ca.buf ca.first zt c.emt _ hcfg1 _ _ _ _ _ _ _ _ (Nat.le_refl _)]
       have hstart1 : c.emt.npre ≤ emtStart c.emt := by unfold emtStart; split <;> omega
       have hstart2 : c.emt.enableZT = true → c.emt.npre + 1 ≤ emtStart c.emt := by
         intro he; unfold emtStart; simp [he]
       obtain ⟨r, hr, hr1, hr2, hr3, hr4⟩ := emtLoop_safe ca.buf ca.first zt c.emt hzt hnp hlt hz4 _ (emtStart c.emt) 0 0 0 []
-        (Nat.le_refl _) hstart1 hstart2 ⟨Int.le_refl _, by rw [hfirst]; omega, Or.inl rfl⟩ (by simp)
+        (Nat.le_refl _) hstart1 hstart2 ⟨Int.le_refl _, by omega, Or.inl rfl⟩ (by simp)
       rw [hr]
-      exact ⟨_, r, rfl, hcfg1, by rw [hfirst]; exact hsf, by omega, fun he => by have := hstart2 he; omega, hr2, hr3, hr4⟩
+      exact ⟨_, r, rfl, hcfg1, hsf, by omega, fun he => by have := hstart2 he; omega, hr2, hr3, hr4⟩
     · -- running: the non-reset branch
       have hnz : c.emt.next ≠ 0 := by omega
       have hfirst : ca.first = c.first := by
